@@ -367,6 +367,11 @@ theorem copy_refines (o : State α) : Inv (copy o) ∧ items (copy o) = items o 
   have := copyElements_refines (o := o) (inv_empty (α := α))
   simpa [copy, items, empty] using this
 
+theorem copyConv_refines {β : Type} (f : β → α) (o : State β) :
+    Inv (copyConv f o) ∧ items (copyConv f o) = (items o).map f := by
+  have := foldl_pushBack_refines ((items o).map f) (inv_empty (α := α))
+  simpa [copyConv, items, empty] using this
+
 theorem ofList_refines (l : List α) : Inv (ofList l) ∧ items (ofList l) = l := by
   have := foldl_pushBack_refines l (inv_empty (α := α))
   simpa [ofList, items, empty] using this
